@@ -1,3 +1,4 @@
+import Yaql.Model.FloatRound
 /-!
 Model of `yaql/standard_library/date_time.py` (C20) on top of a small model of the part of
 CPython's `datetime` module the library uses.
@@ -10,8 +11,13 @@ CPython's `datetime` module the library uses.
 * a timespan is its total number of microseconds (`datetime.timedelta` is exactly that, normalised).
 * only fixed-offset `tzinfo` objects are modelled (`dateutil.tz.tzutc`, `tz.tzoffset`,
   `datetime.timezone`): this is everything the library itself creates.
-* float-valued results (`.timestamp`, the unit properties, `ts / ts`) are returned as the exact
-  rational `num / den` the code hands to the platform's float division; numbers that arrive as floats
+* float-valued results (`.timestamp`, the unit properties, `ts / ts`) exist twice: as the exact
+  rational `num / den` of the quantity (`tsHours`, `dtTimestamp`, `tsDivTs`: what the property's laws are
+  stated on), and as the double the code really returns, bit for bit (`tsHoursF`, `dtTimestampF`,
+  `tsDivTsF`): every float step the code performs is modelled by `Yaql.FloatRound` - `float(int)` and
+  `int / int` are one correctly rounded conversion (`roundRat`), `float / float` is one IEEE division
+  (`divBits`).  Where the code performs two roundings in a row (`microseconds / 3600000000.0` is
+  `float(microseconds)`, then a division) the model performs the same two.  Numbers that arrive as floats
   are the exact rational value of the float.
 * the calendar (`_ymd2ord` / `_ord2ymd` of CPython's `_pydatetime`) is transcribed, so constructors,
   field properties and `replace` are modelled with their errors (`Props/C20Cal.lean` proves the two
@@ -359,6 +365,86 @@ def tsDivNum (t : Int) : Num → Except Err Int
 def tsDivTs (a b : Int) : Except Err (Int × Int) :=
   if tsMicroseconds b = 0 then .error .zeroDivisionError else .ok (tsMicroseconds a, tsMicroseconds b)
 
+/-! ## the float-valued results as the doubles the code returns (IEEE bits) -/
+
+/-- Python `float(i)` (`PyLong_AsDouble`): the nearest double, ties to even; OverflowError beyond the range -/
+def pyFloat (i : Int) : Except Err UInt64 :=
+  match FloatRound.floatOfInt i with
+  | some w => .ok w
+  | none => .error .overflowError
+
+/-- Python `a / b` on two ints (`long_true_divide`): the exact quotient rounded ONCE; a zero quotient takes the
+    sign of the operands (`0 / -5` is `-0.0`) -/
+def pyTrueDiv (a b : Int) : Except Err UInt64 :=
+  if b = 0 then .error .zeroDivisionError
+  else if a = 0 then .ok (if b < 0 then 0x8000000000000000 else 0)
+  else
+    match FloatRound.roundRat (if b < 0 then -a else a) b.natAbs with
+    | .ok w => .ok w
+    | _ => .error .overflowError
+
+/-- Python `x / y` on two floats (`float_div`) -/
+def pyFloatDiv (x y : UInt64) : Except Err UInt64 :=
+  if y.toNat % 2 ^ 63 = 0 then .error .zeroDivisionError else .ok (FloatRound.divBits x y)
+
+/-- `microseconds(timespan) / <unit>.0`: an int divided by a float constant - Python converts the int first
+    (`float(int)`: the first rounding, exact up to 2^53 microseconds = 285 years), then divides (the second) -/
+def tsUnitF (t : Int) (unit : Int) : Except Err UInt64 := do
+  let f ← pyFloat (tsMicroseconds t)
+  let u ← pyFloat unit
+  pyFloatDiv f u
+
+def tsMillisecondsF (t : Int) : Except Err UInt64 := tsUnitF t 1000
+def tsSecondsF (t : Int) : Except Err UInt64 := tsUnitF t 1000000
+def tsMinutesF (t : Int) : Except Err UInt64 := tsUnitF t 60000000
+def tsHoursF (t : Int) : Except Err UInt64 := tsUnitF t 3600000000
+def tsDaysF (t : Int) : Except Err UInt64 := tsUnitF t 86400000000
+
+/-- `ts1 / ts2`: `(0.0 + microseconds(ts1)) / microseconds(ts2)` - `0.0 + int` is `float(int)` (adding `0.0` is exact),
+    `float / int` converts the divisor, then one IEEE division: three roundings, two of them exact below 2^53 -/
+def tsDivTsF (a b : Int) : Except Err UInt64 := do
+  let f ← pyFloat (tsMicroseconds a)
+  let g ← pyFloat (tsMicroseconds b)
+  pyFloatDiv f g
+
+/-- the double a float operand is (`Num.flt n d` is its exact rational value, `d > 0`; the conversion is exact) -/
+def bitsOfNum : Num → Except Err UInt64
+  | .int n => pyFloat n
+  | .flt n d =>
+      match FloatRound.roundRat n d.toNat with
+      | .ok w => .ok w
+      | _ => .error .overflowError
+
+/-- `timedelta(microseconds=x)` for a float `x` (`delta_new` / `accum`): the exact value of the double rounded half-even to a
+    whole number of microseconds; OverflowError for an infinity ("cannot convert float infinity to integer") and outside the
+    timedelta range, ValueError for a NaN -/
+def tsOfFloat (w : UInt64) : Except Err Int :=
+  match FloatRound.decode w with
+  | .fin z => mkTs (roundHalfEven z (FloatRound.scale : Nat))
+  | .nan => .error .valueError
+  | _ => .error .overflowError
+
+/-- `ts * n`, `n * ts` with every float step: an int factor multiplies exactly; a float factor makes
+    `float(microseconds) * n` - `float(int)`, then ONE IEEE multiplication -, then `timedelta(microseconds=<float>)` -/
+def tsMulNumF (t : Int) : Num → Except Err Int
+  | .int n => tsOfMicros (.int (tsMicroseconds t * n))
+  | .flt n d => do
+      let f ← pyFloat (tsMicroseconds t)
+      let g ← bitsOfNum (.flt n d)
+      tsOfFloat (FloatRound.mulBits f g)
+
+/-- `ts / n` with every float step: `microseconds / n` is a true division - `int / int` rounds the exact quotient once,
+    `int / float` is `float(int)` then one IEEE division -, then `timedelta(microseconds=<float>)` -/
+def tsDivNumF (t : Int) : Num → Except Err Int
+  | .int n => do
+      let w ← pyTrueDiv (tsMicroseconds t) n
+      tsOfFloat w
+  | .flt n d => do
+      let f ← pyFloat (tsMicroseconds t)
+      let g ← bitsOfNum (.flt n d)
+      let w ← pyFloatDiv f g
+      tsOfFloat w
+
 /-! ## yaql: datetime operators (each datetime parameter with its declared class) -/
 
 def dtPlusTs (c : PClass) (d : DT) (t : Int) : Except Err DT := pyAddTd (convert c d) t
@@ -409,6 +495,13 @@ def dtTimestamp (c : PClass) (hostOff : Int) (d : DT) : Except Err (Int × Int) 
       (match pySubDt u epoch with
        | .ok t => .ok (t, 1000000)
        | .error e => .error e)
+  | .error e => .error e
+
+/-- `.timestamp` as the double returned: `timedelta.total_seconds()` is `total_microseconds / 10**6` on two ints,
+    ONE correctly rounded division -/
+def dtTimestampF (c : PClass) (hostOff : Int) (d : DT) : Except Err UInt64 :=
+  match dtTimestamp c hostOff d with
+  | .ok q => pyTrueDiv q.1 q.2
   | .error e => .error e
 
 /-- `dt.replace(year, month, day, hour, minute, second, microsecond, offset)`; `null` = keep -/
